@@ -149,6 +149,7 @@ PINNED = [
     ("get_coords returns (y, x)", "forsys/vertex.py", "return [self.x, self.y]", "return [self.y, self.x]"),
 ]
 PRESERVING = [
+    ("perimeter through np.hypot", _P, "perimeter +=  np.sqrt(diffx**2 + diffy**2)", "perimeter +=  np.hypot(diffx, diffy)"),
     ("area: coordinates read directly", _P, "x = [i.get_coords()[0] for i in self.vertices]", "x = [i.x for i in self.vertices]"),
     ("area: sum of elementwise products", _P, "0.5 * (np.dot(x, np.roll(y,1)) - np.dot(y, np.roll(x, 1)))",
      "0.5 * (np.sum(np.array(x) * np.roll(y, 1)) - np.sum(np.array(y) * np.roll(x, 1)))"),
